@@ -110,9 +110,9 @@ mod std_part {
             None => "anon",
             Some(fl) => match q.offset.checked_add(q.size as u64) {
                 None => "end-overflows",
-                Some(e) if e + 1 == fl => "end=eof-1",
+                Some(e) if e.checked_add(1) == Some(fl) => "end=eof-1",
                 Some(e) if e == fl => "end=eof",
-                Some(e) if e == fl + 1 => "end=eof+1",
+                Some(e) if Some(e) == fl.checked_add(1) => "end=eof+1",
                 Some(e) if e < fl => "end<eof",
                 _ => "end>eof",
             },
